@@ -153,6 +153,8 @@ def import_closure(mod, seen=None):
 
 
 def theorem_names(mod):
+    if not os.path.exists(module_file(mod)):
+        return []
     src = strip_comments(open(module_file(mod)).read())
     ns = re.findall(r'^namespace\s+([\w.]+)', src, re.M)
     prefix = (ns[0] + '.') if ns else ''
@@ -611,11 +613,22 @@ def abs_of_dump(raw):
     return '|'.join(['cwd=' + cwd] + [e[1] for e in ents])
 
 
+# finding classes (driver column 2 / judges) and the properties under which they are reported;
+# under any other property a hit of such a class is ignored (neither violation nor known finding)
+CLASS_OWNERS = {
+    'chmod_zero': ('C01', 'C11'), 'listing_includes_links': ('C01', 'C08'), 'empty_lines_noop': ('C06',),
+    'sym_kind_specific_clauses': ('C11',), 'sym_malformed': ('C11',), 'moved_link_rel_stale': ('C10',), 'link_to_own_dir': ('C10',),
+    'contents_first_ignores_filter': ('C08',), 'contents_first_min_depth_order': ('C08',),
+    'readlink_msg_names_target': ('C20',), 'write_all_existing_skipped': ('C20',), 'readlink_abs_suffix': ('C20',), 'no_dir_no_file_exists': ('C20',), 'is_symlink_wrong_name': ('C20',), 'symlink_existing_skipped': ('C20',),
+}
+
 UNORDERED_OPS = ('entries', 'chown_b', 'chown', 'copy_b', 'copy', 'chmod_b', 'chmod', 'mkfile_m')
 
 
 def cmp_line(req, impl, model):
     """'agree' | 'dead' (agree, but the rest of the history is meaningless) | 'mismatch'"""
+    if req.startswith('assert ') and '|nopath' in impl:
+        impl = impl.replace('|nopath', '', 1)      # judged separately (message must name the path)
     io, mo = impl.split(' ## ')[0], model.split(' ## ')[0]
     if io in ('hang', 'crash') and mo == 'hang':
         return 'dead'
@@ -795,7 +808,7 @@ def analyse_sessions(spec, hists, open_known, tag):
                     cls = f[2] if len(f) > 2 else '-'
                     cls = j[2] if len(j) > 2 and j[2] else cls
                     keep = False
-                    if cls != '-' and cls in spec.get('foreign_classes', ()):
+                    if cls != '-' and (cls in spec.get('foreign_classes', ()) or (cls in CLASS_OWNERS and spec['prop'] not in CLASS_OWNERS[cls])):
                         keep = True      # a finding class that belongs to (and is reported under) another property
                     elif cls != '-' and cls in open_known:
                         known_hits.add(cls)
